@@ -102,7 +102,7 @@ FnStmt(st, sc, s) ==
 
 Stmt(st, sc, s) ==
   LET d == Loc(st, sc) IN
-  IF s.k \in {"let", "print", "dimas", "dimsfx", "const"} /\ IsFn(st, s.b) THEN FnStmt(st, sc, s) ELSE
+  IF s.k \in {"let", "print", "dimas", "dimsfx", "const", "redim"} /\ IsFn(st, s.b) THEN FnStmt(st, sc, s) ELSE
   CASE s.k \in {"let", "print"} ->
          LET r == Resolve(st, sc, s.b, s.c, s.sfx) IN
          IF r.r = "reject" THEN Reject(st)
@@ -133,6 +133,17 @@ Stmt(st, sc, s) ==
          ELSE IF sc = "sub" /\ (s.b \in st.sharedext \/ <<s.b, ty>> \in st.shared \/ s.b \in DOMAIN st.g.cst) THEN Unspec(st)
          ELSE LET st1 == SetLoc(st, sc, [d EXCEPT !.seen = @ \cup {<<s.b, ty>>}]) IN
               IF s.shared THEN [st1 EXCEPT !.shared = @ \cup {<<s.b, ty>>}] ELSE st1
+    \* REDIM name(n): the dynamic array of that name and type - made anew if it exists (its elements start over),
+    \* declared otherwise.  A bare name means the array of the default type of its letter, never one of another suffix
+    [] s.k = "redim" ->
+         LET ty == IF s.sfx = "" THEN DefaultType(st.defs, s.c) ELSE s.sfx
+             key == Key(sc, s.b, ty)
+         IN
+         IF s.b \in DOMAIN d.cst THEN Reject(st)
+         ELSE IF s.b \in DOMAIN d.ext THEN Unspec(st)
+         ELSE IF sc = "sub" /\ (s.b \in st.sharedext \/ <<s.b, ty>> \in st.shared \/ s.b \in DOMAIN st.g.cst) THEN Unspec(st)
+         ELSE LET st1 == SetLoc(st, sc, [d EXCEPT !.seen = @ \cup {<<s.b, ty>>}]) IN
+              [st1 EXCEPT !.vars = IF key \in DOMAIN @ THEN [@ EXCEPT ![key] = DefaultVal(ty)] ELSE @ @@ (key :> DefaultVal(ty))]
     [] s.k = "const" ->
          IF s.b \in DOMAIN d.cst \/ s.b \in DOMAIN d.ext \/ UsedAny(d, s.b) THEN Unspec(st)
          ELSE IF sc = "sub" /\ (s.b \in st.sharedext \/ \E t \in Types : <<s.b, t>> \in st.shared) THEN Unspec(st)
